@@ -87,6 +87,13 @@ def gen_pair(rng, tier):
     else:
         F = gen.diagram(rng, m, "grid", scale)
         G = gen.diagram(rng, int(rng.integers(1, top + 1)), "grid", scale)
+    if rng.random() < 0.15 and len(F) and len(G):
+        # special values (0, -0.0, touching bars, exact repeats, diagonal points) and coordinates shared between F and G
+        F = gen.specialize(rng, F, scale)
+        if style == "reorder":
+            G = F[rng.permutation(len(F))]          # must remain a reordering of F
+        else:
+            G = gen.entangle(rng, F, gen.specialize(rng, G, scale))
     sigma = float(rng.choice([0.01, 0.1, 0.4, 0.4, 1.0, 10.0])) * (scale ** 2 if rng.random() < 0.5 else 1.0)
     return F, G, sigma, scale, style
 
